@@ -14,7 +14,8 @@ import (
 // once, or inside an if arm.  The reference evaluator judges the wrapped text, so
 // nothing is assumed about equivalence; the point is that every semantic
 // generator also exercises its subject from inside the other constructs.
-var placementNames = []string{"top-level", "in-block", "in-function", "in-loop-once", "in-if-arm", "in-nested-function", "in-function-called-3-times", "in-loop-3-iterations"}
+var placementNames = []string{"top-level", "in-block", "in-function", "in-loop-once", "in-if-arm", "in-nested-function", "in-function-called-3-times", "in-loop-3-iterations",
+	"twice-verbatim", "after-skipped-copy", "shifted-lines-and-columns"}
 
 func indent(src string) string {
 	lines := strings.Split(strings.TrimSuffix(src, "\n"), "\n")
@@ -45,6 +46,24 @@ func place(src string, k int) string {
 		return bn.KwFun + " again__() {\n" + indent(src) + "}\nagain__();\n" + bn.KwPrint + " \"second-run\";\nagain__();\n" + bn.KwPrint + " \"third-run\";\nagain__();\n"
 	case 7:
 		return bn.KwFor + " (" + bn.KwVar + " round__ = 0; round__ < 3; round__ = round__ + 1) {\n" + indent(src) + "  " + bn.KwPrint + " \"round-done\";\n}\n"
+	}
+	switch k % len(placementNames) {
+	case 8:
+		// the same text twice: whatever is remembered about the first copy must not leak into the second
+		return "{\n" + indent(src) + "}\n" + bn.KwPrint + " \"between-copies\";\n{\n" + indent(src) + "}\n"
+	case 9:
+		// first inside an arm that is never taken and a function that is never called, then for real
+		return bn.KwIf + " (" + bn.KwFalse + ") {\n" + indent(src) + "}\n" + bn.KwFun + " never__() {\n" + indent(src) + "}\n{\n" + indent(src) + "}\n"
+	case 10:
+		// far down the file and far to the right
+		lines := strings.Split(strings.TrimSuffix(src, "\n"), "\n")
+		pad := strings.Repeat(" ", 250) + "\t"
+		for i, l := range lines {
+			if l != "" {
+				lines[i] = pad + l
+			}
+		}
+		return strings.Repeat("\n", 1000) + "// padding above\n" + strings.Join(lines, "\n") + "\n"
 	}
 	return src
 }
